@@ -648,11 +648,32 @@ func (sw *SW) opCommit(st sim.Step) {
 		m.Signature = flipHex(m.Signature)
 		sw.W.Tr.Fault("write_marker_bad_signature")
 	}
+	// an upload that costs more than what is left in the allocation's write pool (size x write price x remaining
+	// duration in time units, as the statement of the payment says; at least one chunk is paid)
+	short := false
+	if size > 0 && !av.Enterprise && vw.Conf.TimeUnitNs > 0 && m.Timestamp <= av.Expiration && size <= ba.Size-ba.UsedSize {
+		paid := size
+		if paid < 64*kb {
+			paid = 64 * kb
+		}
+		rdtu := float64(av.Expiration-m.Timestamp) * 1e9 / float64(vw.Conf.TimeUnitNs)
+		cost := float64(paid) / float64(gb) * float64(ba.WritePrice) * rdtu
+		if cost > float64(av.WritePool)+2 {
+			short = true
+			sw.W.Tr.Fault("upload_cost_exceeds_write_pool")
+		}
+	}
 	in := map[string]any{"allocation_root": m.AllocationRoot, "prev_allocation_root": m.PreviousAllocationRoot, "write_marker": m}
 	raw, _ := json.Marshal(in)
 	o := sw.call(sender.ID, sender.PK, "commit_connection", string(raw), 0)
 	if o.Class == ledger.Success {
 		sw.probeFirst("commit_connection")
+		if short {
+			// accepted: the whole remaining write pool (and no more) went to the challenge pool
+			if after := sw.view().Allocs[id]; after != nil && after.WritePool == 0 {
+				sw.W.Tr.Probe("upload_capped_at_write_pool")
+			}
+		}
 		if size < 0 {
 			sw.probeFirst("commit_connection_delete")
 		}
@@ -808,14 +829,22 @@ func (sw *SW) opChallengeResponse(st sim.Step) {
 
 // ---- clock, close ---------------------------------------------------------------------------------
 
-// st.clock_to I=[alloc, mode, offset]: move the clock to the allocation's expiry + offset seconds (never backwards).
+// st.clock_to I=[alloc, mode(2 = newest open allocation, else by index), offset, eighths]: move the clock to the allocation's
+// expiry + offset seconds, or (eighths 1..7) to start + eighths/8 of its duration (never backwards).
 func (sw *SW) opClockTo(st sim.Step) {
 	vw := sw.view()
-	_, av := sw.pickAlloc(vw, st.Int(0, 0), 0)
+	mode := int64(0)
+	if st.Int(1, 0)%4 == 2 {
+		mode = 2
+	}
+	_, av := sw.pickAlloc(vw, st.Int(0, 0), mode)
 	if av == nil {
 		return
 	}
 	target := common.Timestamp(av.Expiration + st.Int(2, 1))
+	if f := st.Int(3, 0); f >= 1 && f <= 7 {
+		target = common.Timestamp(av.StartTime + (av.Expiration-av.StartTime)*f/8)
+	}
 	if target > sw.W.Now {
 		sw.W.Advance(int64(target - sw.W.Now))
 		sw.W.Tr.Event("clock_to expiry%+d", st.Int(2, 1))
